@@ -58,6 +58,10 @@ Theorem C07_core_registry_keeps_quote : forall (FO : FloatOps), reg_quote_kept (
 Proof. exact @core_quote_kept. Qed.
 Print Assumptions C07_core_registry_keeps_quote.
 
+Theorem C07_full_registry_keeps_quote : forall (FO : FloatOps), reg_quote_kept full_registry.
+Proof. exact @full_quote_kept. Qed.
+Print Assumptions C07_full_registry_keeps_quote.
+
 Theorem C07_quoted_name_to_name_stack : forall (FO : FloatOps) p w s n r,
   st_exec s = IName n :: r -> st_quote s = true ->
   step p full_registry w s = Ok (false, w, set_quote (set_name (set_exec s r) (n :: st_name s)) false).
